@@ -109,6 +109,10 @@ func genC18Registry(r *Rng) *Scenario {
 	}
 	// honest templates
 	dirs := []string{"", "", "blog/", "blog/posts/", "x/y/z/", "admin/"}
+	if r.Chance(30) {
+		// directory names that are patterns to a globbing function
+		dirs = append(dirs, "pages/[slug]/", "drafts [old]/", "a*b/", "q?/", "pages/[slug]/deep/", "br[ok/")
+	}
 	stems := []string{"home", "about", "index", "p1", "list", "a", "t", "tw", "page.v2"}
 	n := r.Range(2, 5)
 	if r.Chance(3) {
@@ -196,6 +200,13 @@ func genC18Registry(r *Rng) *Scenario {
 		ex.Names = append(ex.Names, "withlayout")
 		ex.NotNames = append(ex.NotNames, "layouts/main")
 		ex.Expect["withlayout"] = "<html><b>WL 7</b></html>"
+		if r.Chance(50) {
+			// the layout referenced through a spelling the file system resolves to the same file
+			sp2 := Pick(r, []string{"layouts//main", "./layouts/main", "layouts/../layouts/main", "layouts/./main"})
+			add("withlayout2"+ext, `@use("`+sp2+`")`+"\n"+`@insert("content")<b>WL2 {{ n1 }}</b>@end`, "page")
+			ex.Names = append(ex.Names, "withlayout2")
+			ex.Expect["withlayout2"] = "<html><b>WL2 7</b></html>"
+		}
 	}
 	// a layout and a component whose own NAMES end in the extension (files with the extension
 	// twice), next to decoys that carry it once: references resolve to name + extension, always
@@ -1013,6 +1024,26 @@ func (p c18) Run(seed uint64, run int, tier string, acc *Acc) *Violation {
 	return first
 }
 
+// c18FailopBaseline: the "reported success but lost a template" clause of the k-th-operation
+// faults compares with the fault-free load of the same files (nil for every other fault).
+func c18FailopBaseline(sc *Scenario) map[string]Obs {
+	if sc.C18 == nil || sc.C18.Fault != "failop" {
+		return nil
+	}
+	w := NewWorld(sc.Cwd, sc.Files)
+	pinSeams()
+	if lo := w.RunOp(sc.Ops[0], Budget); lo.Kind != "ok" {
+		return nil
+	}
+	baseline := map[string]Obs{}
+	for _, name := range append([]string{sc.C18.FaultName}, sc.C18.Others...) {
+		if name != "" {
+			baseline[name] = w.RunOp(Op{Kind: "string", Name: name, Data: c18Data}, Budget)
+		}
+	}
+	return baseline
+}
+
 // minimise drops files that are not needed for the same signature.
 func (p c18) minimise(sc *Scenario, f *c18Fail) *Violation {
 	cur := sc
@@ -1021,7 +1052,7 @@ func (p c18) minimise(sc *Scenario, f *c18Fail) *Violation {
 		if s.C18.Kind == "registry" {
 			return checkC18Registry(s, tmp)
 		}
-		ff, _ := checkC18Fault(s, c18Budget(s), nil, tmp)
+		ff, _ := checkC18Fault(s, c18Budget(s), c18FailopBaseline(s), tmp)
 		return ff
 	}
 	for i := len(cur.Files) - 1; i >= 0; i-- {
@@ -1086,7 +1117,7 @@ func (p c18) Replay(sc *Scenario, acc *Acc) *Violation {
 	if sc.C18.Kind == "registry" {
 		f = checkC18Registry(sc, acc)
 	} else {
-		f, _ = checkC18Fault(sc, c18Budget(sc), nil, acc)
+		f, _ = checkC18Fault(sc, c18Budget(sc), c18FailopBaseline(sc), acc)
 	}
 	if f == nil {
 		return nil
